@@ -22,29 +22,17 @@ def handler(*pids):
 # C01-C06: the codec engine
 # ----------------------------------------------------------------------------------------
 
-def sig_properties(kind, sig):
-    props = {"C03"}
-    props.add("C01" if kind == "enc" else "C02")
-    if re.search(r"EMarkZero|EPatch|ESpan", sig):
-        props.add("C04")
-    if "ECheck" in sig:
-        props.add("C06")
-    if "DDispatch" in sig or "EDyn" in sig:
-        props.add("C05")
-    return props
+MARKERS = {"C04": r"EMarkZero|EPatch|ESpan", "C05": r"DDispatch|EDyn", "C06": r"ECheck"}
 
 
-def step_relevant(pid, step_text):
-    """Projection of a packet's steps onto a property (for the tie)."""
-    if pid in ("C01", "C02", "C03"):
+def packet_relevant(pid, *texts):
+    """C04/C05/C06 look at the packets that carry a length-of / match / checksum construct (in the
+    observed output, the generator model's or the reference's) - at the WHOLE packet, since the
+    order of steps matters (what precedes a checksum, where the patch happens)."""
+    rx = MARKERS.get(pid)
+    if rx is None:
         return True
-    if pid == "C04":
-        return bool(re.search(r"EMarkZero|EPatch|ESpan", step_text))
-    if pid == "C05":
-        return "DDispatch" in step_text or "EDyn" in step_text
-    if pid == "C06":
-        return "ECheck" in step_text
-    return True
+    return any(t and re.search(rx, t) for t in texts)
 
 
 def projection(pid, pkt_text):
@@ -54,7 +42,7 @@ def projection(pid, pkt_text):
         dec = []
     if pid == "C02":
         enc = []
-    return [(t, s) for t, s in enc if step_relevant(pid, s)], [(t, s) for t, s in dec if step_relevant(pid, s)]
+    return n, enc, dec
 
 
 @handler("C01", "C02", "C03", "C04", "C05", "C06")
@@ -68,7 +56,8 @@ def codec_check(res, known, args):
         res.violation({"kind": "proof-obligation", "what": "Coq development does not build", "output": r["coq_build_failed"]}, found=False)
         return
     kinds = {"C01": ["enc"], "C02": ["dec"], "C04": ["enc"], "C06": ["enc"]}.get(pid, ["enc", "dec"])
-    pats = [(f, re.compile(f["sig"])) for f in known["findings"] if pid in f["properties"] and "sig" in f]
+    # a codec finding applies to every codec property in whose relevant packets it occurs
+    pats = [(f, re.compile(f["sig"])) for f in known["findings"] if "sig" in f]
     n_cases = n_valid = n_tie_ok = 0
     per_lang = collections.Counter()
     unknown = collections.OrderedDict()     # (lang, kind, sig) -> [(program, path)]
@@ -88,6 +77,8 @@ def codec_check(res, known, args):
             tie_ok = True
             for path, obs in e["observed"].items():
                 mod = e["model"].get(path)
+                if not packet_relevant(pid, obs, mod, e["ref"].get(path)):
+                    continue
                 if mod is None or projection(pid, obs) != projection(pid, mod):
                     tie_ok = False
                     tie_broken.append({"program": prog_id, "lang": lang, "packet": path, "observed": obs, "model": mod})
@@ -101,7 +92,7 @@ def codec_check(res, known, args):
                     if v == "T":
                         continue
                     sigs = [s for s in (e["diff_" + kind].get(path) or ["(steps reordered or of another shape)"])]
-                    rel = [s for s in sigs if pid in sig_properties(kind, s)]
+                    rel = sigs if packet_relevant(pid, e["observed"].get(path), e["model"].get(path), e["ref"].get(path)) else []
                     if rel:
                         all_valid = False
                     for s in rel:
@@ -142,6 +133,13 @@ def codec_check(res, known, args):
             paths = set(path for _, path in items)
             bad = [x for x in bad if x[2] in paths or any(x[2].startswith(q + "/") or q.startswith(x[2]) for q in paths)]
             what = "; ".join(k for k, _ in items)
+            junk = [t for path in paths for t in re.findall(r"[ED]Junk<[^>]*>", p["langs"][lang]["observed"].get(path, ""))]
+            if junk:
+                # text the extractor cannot interpret: the IR semantics of that packet is not trusted
+                res.violation({"kind": "correspondence", "what": "the emitted %s code of packet(s) %s contains statements the template inverse does not recognise; the property is no longer shown for them"
+                               % (lang, ", ".join(sorted(paths))), "unrecognised": junk[:8], "difference": what, "dsl": p["text"], "lang": lang,
+                               "theorem_or_correspondence": "T2d extract_%s (every line of encode/decode claimed)" % lang}, found=False)
+                continue
             if bad:
                 x = bad[0]
                 res.violation({"kind": "codec", "what": "the %s code emitted for packet %s does not implement the wire layout: %s"
